@@ -10,6 +10,7 @@ IMPORTS = ["Zc.Model.Dns"]
 CLASSES = [
     {
         "py": "DNSRecord",
+        "bases": ["DNSEntry"],
         "opaque": "Rec",
         "fields": [],
         "methods": [
